@@ -140,6 +140,13 @@ def gen_worktable(rng, n=None, vclass="int", limits=None, need_trough=False, nam
     # rack labels must be distinct; make some of them "interesting" (spaces, latin-1, 32 chars)
     if rng.random() < 0.3:
         fancy = rng.choice(["MTP 96-well", "Tröge_µ", "R" * 32, "rack.1", "Systemliquid", "Systemliquid", "Waste"])  # incl. built-in EVOware identifiers
+        if rng.random() < 0.2:
+            # a name that differs from another labware's name by a blank at the end / the beginning only
+            # (still distinct names), or a name with a blank at one end
+            base_ = rng.choice([x["name"] for x in out])
+            fancy = rng.choice([base_ + " ", " " + base_, "MTP 96 ", " rack"])
+            if fancy in [x["name"] for x in out]:
+                fancy = "MTP 96 "
         if nonlatin and rng.random() < 0.35:
             fancy = rng.choice(["Assay-α", "β-Gal plate", "plate №2"])  # not encodable in the Latin-1 of a .gwl file
         d = out[rng.randrange(len(out))]
